@@ -15,6 +15,7 @@
 (*    probe m  records <<m, $?>> and leaves $? unchanged (regular built-in)*)
 (*    tick     increments a counter; succeeds the first TickLimit times    *)
 (*    name     simple command `name` resolved in the POSIX search order    *)
+(*    nil      a command whose words expand to nothing (`$unset`, "$@")    *)
 (*    break n, continue n, return [n], exit [n], `:` and `.` (special)     *)
 (*    the error leaves of 2.8.1 (assignment to a read-only variable,       *)
 (*    ${U?} on an unset variable, `. /nonexistent`, redirection from a     *)
@@ -49,7 +50,7 @@ CONSTANTS Fuel,        \* bound on loop iterations + function calls of one run
 (***************************************************************************)
 Tok(k, n, s, w, r) == [k |-> k, n |-> n, s |-> s, w |-> w, r |-> r]
 
-LeafKinds == {"mk", "P", "tick", "cmd", "brk", "cnt", "ret", "exit", "nop", "dot",
+LeafKinds == {"mk", "P", "tick", "cmd", "nil", "brk", "cnt", "ret", "exit", "nop", "dot",
               "asg", "asgc", "exp", "trap", "empty", "esac"}
 
 \* Slot types: "C" any command, "N" any command but a sequential list,
@@ -214,6 +215,9 @@ Simple(t, S, C) ==
     [] t.k = "P" -> Errexit(Record(S, t.m), C)
     [] t.k = "tick" -> Errexit([S EXCEPT !.c = @ + 1, !.st = IF S.c + 1 <= TickLimit THEN 0 ELSE 1], C)
     [] t.k = "nop" -> [S EXCEPT !.st = 0]
+    \* 2.9.1: all words expand to nothing, no command substitution: "the
+    \* command shall complete with a zero exit status"
+    [] t.k = "nil" -> [S EXCEPT !.st = 0]
     [] t.k = "trap" -> [S EXCEPT !.st = 0, !.trap = t.m]
     [] t.k = "dot" -> IF t.w = 1 THEN SoftError(S, C) ELSE ShellError(S)
     [] t.k \in {"brk", "cnt"} -> LoopExit(t, S, C)
@@ -320,7 +324,12 @@ Ev(t, S, C) ==
 (* line at a time (2.3, 2.10): the items of the top-level sequential list  *)
 (* are the lines.  Options of a run: e errexit, t EXIT trap set on the     *)
 (* first line (action `probe 0`), y > 0: a line with a syntax error        *)
-(* follows line y (the rest is never read).                                *)
+(* follows line y (the rest is never read).  A run may also have the       *)
+(* monitor option on (field m of the options, where present): XCU 2.15     *)
+(* set -e/-m and 2.9 give it no influence on anything this specification   *)
+(* speaks about (job control changes process groups and reporting, not     *)
+(* which commands run, $? or when the shell exits), so Run does not read   *)
+(* it; the conformance check runs such scenarios against the same outcome. *)
 (***************************************************************************)
 RECURSIVE Lines(_)
 Lines(t) == IF t.k = "seq" THEN <<t.c[1]>> \o Lines(t.c[2]) ELSE <<t>>
